@@ -164,6 +164,8 @@ class Run:
             return ('mem', e['f'], T(self.f, e.get('t')))
         if k == 'mem':
             base = self.val(e['b'])
+            if isinstance(base, tuple) and base[0] == 'R' and not e.get('f'):
+                return ('recobj', base[1])
             if isinstance(base, tuple) and base[0] == 'R':
                 return ('rec', base[1], e['f'], T(self.f, e.get('t')))
             raise Unsupported('lvalue `%s`' % pe(e))
@@ -365,6 +367,18 @@ class Run:
             o = strip_lv(o['e'])
         if o.get('k') == 'var' and ('O', o.get('id')) in self.bufs:
             return o['id']
+        if self.objects and o.get('k') == 'call' and o.get('op') == '->' and o.get('obj') is not None:
+            o = strip_lv(o['obj'])          # a smart-pointer member: p.operator->()
+            while o.get('k') in ('temp', 'paren'):
+                o = strip_lv(o['e'])
+        if self.objects and (o.get('k') == 'mem' or (o.get('k') == 'un' and o.get('op') == '*')) and e.get('arrow', True):
+            # p->member(): p is a member / record field / pointer that refers to a modelled object
+            try:
+                pv = self.val(o if o.get('k') == 'mem' else o['e'])
+            except Unsupported:
+                pv = None
+            if isinstance(pv, tuple) and pv[0] == 'P' and isinstance(pv[1], tuple) and pv[1][0] == 'O' and pv[2] == 0 and pv[1] in self.bufs:
+                return pv[1][1]
         if o.get('k') == 'call' and self.strobjs and (o.get('op') in ('<<', '+=') or (o.get('fn') or '').split('::')[-1] in ('append', 'operator<<', 'operator+=')):
             inner = self.obj_of(o)          # q << a << b: the receiver of the outer call is the object of the inner one
             if inner is not None and inner in self.strobjs:
@@ -503,6 +517,8 @@ class Run:
                 return len(self.bufs[('O', bo['id'])]) - 1          # length field of a modelled String
         if k == 'mem' and not _on_this(e):
             base = self.val(e['b'])
+            if isinstance(base, tuple) and base[0] == 'R' and not e.get('f'):
+                return base             # anonymous union / struct layer of the record
             if isinstance(base, tuple) and base[0] == 'R':
                 rec = self.recs[base[1]]
                 if e.get('f') not in rec:
@@ -700,6 +716,15 @@ class Run:
             return dst
         if fn in self.externs and not e.get('clsp') and e.get('obj') is None:
             return self.externs[fn](self, e, [self.val(a) for a in e.get('a', [])])
+        if fn in ('strcmp', 'strncmp') and not e.get('clsp'):
+            a = [self.val(x) for x in e.get('a', [])]
+            s1, s2 = self.cstring(a[0], e.get('l')), self.cstring(a[1], e.get('l'))
+            if fn == 'strncmp':
+                if not isinstance(a[2], int):
+                    raise Unsupported('`%s`' % pe(e))
+                s1, s2 = s1[:a[2]], s2[:a[2]]
+            u1, u2 = [x & 255 for x in s1], [x & 255 for x in s2]
+            return (u1 > u2) - (u1 < u2)
         if fn in ('strpbrk', 'strcspn', 'strspn') and not e.get('clsp'):
             a = [self.val(x) for x in e.get('a', [])]
             hay, cs = self.cstring(a[0], e.get('l')), set(self.cstring(a[1], e.get('l')))
@@ -780,11 +805,11 @@ class Run:
             oe = strip_lv(e['obj'])
             while oe.get('k') in ('temp', 'paren'):
                 oe = strip_lv(oe['e'])
-            if oe.get('k') == 'call':
+            if oe.get('k') == 'call' and oe.get('op') != '->':
                 self.val(oe)            # q << a << b: the inner append runs first (once)
             if e.get('op') == '[]':
                 return self.get(self.lv(e))
-            if name in ('data', 'str', 'ptr', 'operator char *', 'operator const char *', 'operator*') and not e.get('a'):
+            if (name in ('data', 'str', 'ptr', 'operator char *', 'operator const char *', 'operator*', 'operator->') or e.get('op') == '->') and not e.get('a'):
                 return ('P', ('O', oid), 0)
             if name in ('length', 'size') and not e.get('a'):
                 if oid in self.strobjs:
